@@ -163,6 +163,26 @@ func g2BaseMul(k *big.Int) []byte {
 	return p.MarshalUncompressed()
 }
 
+// g1BaseMul returns 04 || [k]P1 computed by the library's G1.
+func g1BaseMul(k *big.Int) []byte {
+	p, err := new(hk.G1).ScalarBaseMult(ref.Bytes32(k))
+	if err != nil {
+		return nil
+	}
+	return p.MarshalUncompressed()
+}
+
+// encUserPublic returns QB = [H1(ID||hid)]P1 + Ppub-e with the reference H1 and
+// the library's G1 (ref.EncUserPublic is the fully independent, slow version).
+func encUserPublic(ppub, uid []byte, hid byte) *hk.G1 {
+	pp := g1From(ppub)
+	q, err := new(hk.G1).ScalarBaseMult(ref.H1(append(append([]byte{}, uid...), hid)))
+	if pp == nil || err != nil {
+		return nil
+	}
+	return q.Add(q, pp)
+}
+
 // modelW returns the 384-byte encoding of e(C, de) for C = x||y and de = 128 bytes.
 func modelW(c, de []byte) []byte {
 	p, q := g1From(c), g2From(de)
